@@ -16,7 +16,7 @@ func (g *G) stmt() Tri {
 		return printCall(same(`"~"`))
 	}
 	for tries := 0; tries < 3; tries++ {
-		switch g.n(0, 24, "stmt") {
+		switch g.n(0, 25, "stmt") {
 		case 0, 1:
 			return g.stDecl()
 		case 2, 3:
@@ -93,6 +93,10 @@ func (g *G) stmt() Tri {
 			return g.stSliceSpread()
 		case 24:
 			return g.stTupleAssign()
+		case 25:
+			if g.allow("struct") {
+				return g.stAnonStruct()
+			}
 		}
 	}
 	return g.stAssign()
